@@ -1,4 +1,5 @@
 import BigtoolsModel.FileOf
+import BigtoolsModel.FiltersGen
 import BigtoolsModel.OverlapsGen
 import BigtoolsModel.BlockSpan
 import BigtoolsModel.PyBase
@@ -81,3 +82,23 @@ theorem C03_source_overlaps_is_the_models_ov (q qs qe b1 b1s b2 b2e : Nat) :
   gen_overlaps_eq_ov q qs qe b1 b1s b2 b2e
 
 end RT
+
+namespace BBI
+open CD
+
+/-- **The code's own range filter and clipping, bigWig.** For each of the three section types the `if` condition of
+    `get_block_values` that mentions both query bounds, and the two clipping assignments that follow it, are regenerated from
+    bigwigread.rs on every run; together they are the `keepClip` with which the query theorems are stated. -/
+theorem C03_source_filter_is_keepClip (qs qe : Nat) (v : Value) :
+    ((if Gen.wig_keep_0 v.start v.stop qs qe
+      then some { v with start := Gen.wig_clip_start_0 v.start v.stop qs qe, stop := Gen.wig_clip_end_0 v.start v.stop qs qe }
+      else none) = keepClip qs qe v) ∧
+    ((if Gen.wig_keep_1 v.start v.stop qs qe
+      then some { v with start := Gen.wig_clip_start_1 v.start v.stop qs qe, stop := Gen.wig_clip_end_1 v.start v.stop qs qe }
+      else none) = keepClip qs qe v) ∧
+    ((if Gen.wig_keep_2 v.start v.stop qs qe
+      then some { v with start := Gen.wig_clip_start_2 v.start v.stop qs qe, stop := Gen.wig_clip_end_2 v.start v.stop qs qe }
+      else none) = keepClip qs qe v) :=
+  ⟨gen_wig_filter_0 qs qe v, gen_wig_filter_1 qs qe v, gen_wig_filter_2 qs qe v⟩
+
+end BBI
